@@ -244,6 +244,7 @@ def run(pid, tier, seed, args, sw):
 
     # -- 1. Lean build + audit -------------------------------------------------------------
     proof_problems = []
+    translation_fallback = []
     names, ppath = theorems_of(pid)
     axioms = {}
     build_ok, build_log = True, ""
@@ -251,7 +252,10 @@ def run(pid, tier, seed, args, sw):
         with BuildLock():
             build_ok, build_log, tproblems = lean_build(pid)
             for tp in tproblems:
-                proof_problems.append({"kind": "translation", "detail": tp})
+                # outside the translator's fragment: the bridge is checked against the validated translation only; the
+                # tie for that function is the correspondence run (not a proof problem)
+                translation_fallback.append(tp)
+                print("NOTE %s: untranslatable, tie is the correspondence alone for %s" % (pid, tp))
             if not build_ok:
                 ft = failing_theorems(build_log)
                 proof_problems.append({"kind": "build", "theorem": ", ".join(ft) or None, "detail": build_log[-3000:]})
@@ -273,7 +277,9 @@ def run(pid, tier, seed, args, sw):
                     proof_problems.append({"kind": "leanchecker", "detail": log})
     if not os.path.exists(common.DRIVER):
         raise Infra("model driver could not be built:\n" + build_log[-2000:])
-    discharged = [n for n in names if axioms.get(n) is not None and set(axioms[n]) <= ALLOWED_AXIOMS]
+    vacuous = {m for tp in translation_fallback for m in re.findall(r"\[(C\d+_gen_\w+)\]", tp)}
+    discharged = [n for n in names if axioms.get(n) is not None and set(axioms[n]) <= ALLOWED_AXIOMS
+                  and n not in vacuous]
 
     # -- 2. scenarios ------------------------------------------------------------------------
     import drift
@@ -407,6 +413,7 @@ def run(pid, tier, seed, args, sw):
             "known_findings_seen": {k: len(v) for k, v in known_hits.items()},
             "anchored_line_coverage": cov.report(),
             "source_drift": source_drift[:40],
+            "translation_fallback": translation_fallback,
             "exhaustive": bool(getattr(prop, "exhaustive_space", False)) and tier == "quick",
         },
         "assumptions": prop.assumptions,
